@@ -30,7 +30,10 @@ def check_closure_idioms(ctx, extra_roots=()):
                          check_truthy_position, check_jump_in_finally,
                          check_partially_empty_return,
                      check_sentinel_codes_gather,
-                         check_sentinel_codes_gather)
+                     check_falsy_numeric_default,
+                         check_sentinel_codes_gather,
+                     check_falsy_numeric_default,
+                         check_falsy_numeric_default)
     from .h5names import check_h5_names_created_once
     from .scatter import check_pointer_scatter
     from .tiling import (check_tiling, check_whole_axis,
@@ -43,7 +46,8 @@ def check_closure_idioms(ctx, extra_roots=()):
     from .nodekeys import check_memo_keys
     from .capacity import (check_index_dtype, check_borrowed_dtype,
                            check_sum_capacity, check_bound_kind,
-                           check_index_arithmetic_widened)
+                           check_index_arithmetic_widened,
+                           check_index_cast_to_input_dtype)
     from . import cursors as CU
     db = ctx.db
     seeds = [q for q in sorted(ctx.functions_analysed)
@@ -67,6 +71,7 @@ def check_closure_idioms(ctx, extra_roots=()):
         for rule in (check_shared_mutable, check_abs_of_extremum,
                      check_partially_empty_return,
                      check_sentinel_codes_gather,
+                     check_falsy_numeric_default,
                      check_truthy_position, check_jump_in_finally,
                      check_narrowing_cast, check_inplace_float_store,
                      check_h5_names_created_once, check_pointer_scatter,
@@ -74,7 +79,8 @@ def check_closure_idioms(ctx, extra_roots=()):
                      check_unsort_pairs, check_sorted_results_unsorted,
                      check_memo_keys, check_index_dtype, check_borrowed_dtype,
                      check_sum_capacity, check_bound_kind,
-                     check_index_arithmetic_widened, check_tiling,
+                     check_index_arithmetic_widened,
+                     check_index_cast_to_input_dtype, check_tiling,
                      check_window_writes, check_buffer_windows,
                      check_store_advances, check_batch_search,
                      check_copy_not_filtered_by_content,
